@@ -375,7 +375,7 @@ func (g *Gen) call(v *ssa.Call, c *ssa.CallCommon, ins ssa.Instruction) {
 		}
 		if con.CallsBack {
 			g.callbackInvariants(c, ins, true)
-			g.applyCallbacks(c)
+			g.applyCallbacks(c, ins)
 			g.callbackInvariants(c, ins, false)
 		}
 		if !con.Pure && len(con.Modifies) == 0 && !con.Assumed && !con.hasFrame() {
